@@ -51,6 +51,7 @@ KINDS = ("real-cluster-wrong-value", "real-cluster-missing-output", "real-cluste
          "real-cluster-purge-before-consumers-done", "real-cluster-purge-before-delivered", "real-cluster-purge-while-unanswered")
 RETS = ("int", "tuple", "str", "sum")                 # the plain kinds (every family)
 RETS_RICH = ("nd", "nd", "bytes")                     # + with `rich`: ndarray / bytes values
+# "ndm" (family nd-replicated only): an ndarray with >= 2 elements for sure -- `==`/`!=` on it are element-wise and its truth value raises
 STARTUP_S = 20.0           # executors forked, data servers listening, every host registered at the Bridge (healthy: 1-3 s, under load up to ~11 s)
 JOB_S = 25.0               # controller.impl.run from its first line to its return, shutdown of the executors included (healthy: 0.3-2 s, under load up to ~8 s)
 DEADLINE_S = STARTUP_S + JOB_S + 5.0      # outer deadline of the runner subprocess; the two inner ones are enforced by the runner itself
@@ -151,6 +152,13 @@ def _val(ret, tag, i, bound):
         return Box(s)
     if ret == "nd":
         return _nd(s)
+    if ret == "ndm":
+        a = _nd(s)
+        if a.size < 2:
+            import numpy as np
+            n = zlib.crc32(s.encode())
+            a = np.array([n % 1009, (n >> 3) % 1013, (n >> 7) % 1019], dtype=np.int64)
+        return a
     return zlib.crc32(s.encode())
 
 
@@ -327,7 +335,7 @@ def _gen_task(rng, name, up, consumed, force=None, rets=RETS):
 SHAPES_DENSE = [(2, 1), (2, 2), (1, 2), (2, 1), (2, 3), (1, 3)]
 SHAPES_3H = [(3, 1), (3, 2), (3, 3), (3, 1)]
 SHAPES_ANY = [(1, 1), (1, 2), (2, 1), (2, 2), (2, 1), (3, 1), (1, 3), (2, 3), (3, 2)]
-THEMES = ("three-hosts", "gpu", "serde", "wide-gpu", "chain")
+THEMES = ("three-hosts", "gpu", "serde", "wide-gpu", "chain", "many-pos", "nd-replicated")
 
 
 def gen_spec(rng, dense=False, theme=None):
@@ -342,6 +350,10 @@ def gen_spec(rng, dense=False, theme=None):
         return _gen_wide(rng)
     if theme == "chain":
         return _gen_chain(rng)
+    if theme == "many-pos":
+        return _gen_manypos(rng)
+    if theme == "nd-replicated":
+        return _gen_ndrep(rng)
     three = theme == "three-hosts"
     if dense:
         hosts, workers = rng.choice(SHAPES_3H if three else SHAPES_DENSE)
@@ -442,6 +454,67 @@ def _gen_chain(rng):
     return {"tasks": tasks, "ext": [[f"c{n - 1}", DEFAULT_OUT]], "hosts": 1, "workers": rng.choice([1, 1, 2]), "theme": "chain"}
 
 
+def _gen_manypos(rng):
+    """Tasks called with 11-13 POSITIONAL arguments (positions with two digits: "10" < "2" as strings): polyA gets all of
+    them as statics (TaskBuilder.with_values(*args)); polyB has one position below 10 and (when it has 12-13) one from 10 on
+    fed by edges, statics everywhere else, at least one static at a position >= 10. No two static values of a task are
+    equal and the result is injective in (parameter name, value), so statics bound in any other order than the numeric
+    one change the requested values."""
+    def statics(n):
+        pool = rng.sample(range(-50, 100), n)
+        return [v if rng.random() < 0.6 else f"s{v}" for v in pool]
+    rets = ("str", "tuple", "int")
+    na, nb = rng.choice([11, 12, 13]), rng.choice([11, 12, 13])
+    u = _gen_task(rng, "u", [], {}, "src", ("int", "str"))
+    va = statics(na)
+    poly_a = {"name": "polyA", "ret": rng.choice(rets), "outs": [DEFAULT_OUT],
+              "params": [{"n": f"p{j}", "kind": "pos"} for j in range(na)],
+              "bind": [{"val": va[j], "p": f"p{j}", "how": "pos", "idx": j} for j in range(na)]}
+    edges = {rng.randrange(0, 10): ["polyA", DEFAULT_OUT]}
+    if nb >= 12 and rng.random() < 0.6:
+        edges[rng.randrange(10, nb - 1)] = ["u", rng.choice(u["outs"])]        # position nb-1 stays static
+    else:
+        edges[rng.choice([j for j in range(0, 10) if j not in edges])] = ["u", rng.choice(u["outs"])]
+    vb = statics(nb)
+    poly_b = {"name": "polyB", "ret": rng.choice(rets), "outs": [DEFAULT_OUT],
+              "params": [{"n": f"p{j}", "kind": "pos"} for j in range(nb)],
+              "bind": [dict({"src": edges[j]} if j in edges else {"val": vb[j]}, p=f"p{j}", how="pos", idx=j) for j in range(nb)]}
+    tail = {"name": "tail", "ret": rng.choice(rets), "outs": [DEFAULT_OUT], "params": [{"n": "a", "kind": "pos"}],
+            "bind": [{"src": ["polyB", DEFAULT_OUT], "p": "a", "how": "pos", "idx": 0}]}
+    ext = [["polyA", DEFAULT_OUT], ["polyB", DEFAULT_OUT], ["tail", DEFAULT_OUT]]
+    rng.shuffle(ext)
+    hosts, workers = rng.choice([(1, 1), (1, 2), (2, 1)])
+    return {"tasks": [u, poly_a, poly_b, tail], "ext": ext, "hosts": hosts, "workers": workers, "theme": "many-pos"}
+
+
+def _gen_ndrep(rng):
+    """Requested outputs whose VALUE is an ndarray of several elements and which are ALSO consumed on another host
+    (replication + fetch of the same dataset): 2-3 hosts x 1 worker, one array-valued source per host (all requested), and
+    joins that each consume two of them in different orders -- wherever a join is placed, an array the caller asked for
+    travels host-to-host while its value is fetched (or has been delivered) to the controller. A controller that looks at a
+    delivered value with ==/!= instead of identity meets an element-wise comparison here."""
+    hosts = rng.choice([2, 2, 3])
+    ns = hosts + rng.choice([0, 0, 1])
+    tasks, up = [], []
+    for i in range(ns):
+        t = {"name": f"a{i}", "ret": "ndm", "outs": [DEFAULT_OUT], "params": [{"n": "k", "kind": "def", "default": rng.randint(0, 99)}], "bind": []}
+        if rng.random() < 0.5:
+            t["bind"].append({"val": rng.randint(100, 199), "p": "k", "how": "kw"})
+        tasks.append(t)
+        up.append([t["name"], DEFAULT_OUT])
+    nj = rng.choice([2, 3])
+    for j in range(nj):
+        x, y = up[j % ns], up[(j + 1) % ns]
+        if j % 2:
+            x, y = y, x
+        tasks.append({"name": f"j{j}", "ret": rng.choice(["str", "tuple", "ndm"]), "outs": [DEFAULT_OUT],
+                      "params": [{"n": "a", "kind": "pos"}, {"n": "b", "kind": "pos"}],
+                      "bind": [{"src": x, "p": "a", "how": "pos", "idx": 0}, {"src": y, "p": "b", "how": "pos", "idx": 1}]})
+    ext = [list(d) for d in up] + [[f"j{j}", DEFAULT_OUT] for j in range(nj) if rng.random() < 0.7]
+    rng.shuffle(ext)
+    return {"tasks": tasks, "ext": ext, "hosts": hosts, "workers": 1, "theme": "nd-replicated"}
+
+
 def ambiguate(spec, rng):
     """Rename two tasks and one output of each so that task-name + output-name of two DIFFERENT datasets is the same
     string ("q"+"xy" == "qx"+"y"): every per-dataset key the implementation derives from the two names must still differ."""
@@ -493,6 +566,11 @@ def features(spec):
                     f.add("static-kw-overrides-default")
         if npe >= 2:
             f.add("pos-edges>=2")
+        npos = sum(1 for b in t["bind"] if b["how"] == "pos")
+        if npos >= 11:
+            f.add("positional-arguments>=11")
+            if any(b["how"] == "pos" and "src" in b for b in t["bind"]):
+                f.add("positional-arguments>=11-some-fed-by-edges")
         if any(b["how"] == "pos" and "val" in b and any(c["how"] == "pos" and "src" in c and c["idx"] < b["idx"] for c in t["bind"]) for b in t["bind"]):
             f.add("static-pos-after-edge")
         if defaults - {b["p"] for b in t["bind"]}:
@@ -505,6 +583,11 @@ def features(spec):
             f.add("dotted-task-name")
         if t.get("gpu"):
             f.add("gpu-task")
+        if t["ret"] == "ndm":
+            f.add("value-nd")
+            f.add("value-nd-with-2-or-more-elements")
+            if [t["name"]] in [e[:1] for e in spec["ext"]] and any("src" in b and tuple(b["src"])[0] == t["name"] for u in spec["tasks"] for b in u["bind"]):
+                f.add("requested-nd-value-consumed-downstream")
         if t["ret"] in ("nd", "bytes", "box"):
             f.add("value-" + t["ret"])
             if any("src" in b and tuple(b["src"])[0] == t["name"] for u in spec["tasks"] for b in u["bind"]):
@@ -565,7 +648,7 @@ def make_job(spec):
         ps = {str(b["idx"]): _dec_static(b["val"]) for b in t["bind"] if b["how"] == "pos" and "val" in b}
         if kw:
             tb = tb.with_values(**kw)
-        if ps and sorted(ps) == [str(i) for i in range(len(ps))]:
+        if ps and sorted(ps, key=int) == [str(i) for i in range(len(ps))]:
             tb = tb.with_values(*[ps[str(i)] for i in range(len(ps))])
         elif ps:
             tb = tb.model_copy(update={"static_input_ps": ps})
@@ -1055,11 +1138,12 @@ def plan(seed, quick):
     """-> [(seed_i, spec)]: the quick tier runs one case of every family; the thorough tier 48 cases."""
     rng = random.Random(seed)
     if quick:
-        fam = [("dense", None), ("dense+ambiguous", None), ("dense", "three-hosts"), ("dense", "gpu"), ("dense", "serde"), ("any", "wide-gpu"), ("any", "chain"), ("any", None)]
+        fam = [("dense", None), ("dense+ambiguous", None), ("dense", "three-hosts"), ("dense", "gpu"), ("dense", "serde"), ("any", "wide-gpu"), ("any", "chain"), ("any", None),
+               ("any", "many-pos"), ("any", "nd-replicated")]
     else:
         cyc = [("dense", None), ("dense+ambiguous", None), ("dense", "three-hosts"), ("dense", "gpu"), ("dense", "serde"), ("any", "chain"), ("any", None), ("any", "three-hosts"),
                ("dense", None), ("any+ambiguous", None), ("any", "gpu"), ("any", "serde")]
-        fam = [cyc[i % len(cyc)] for i in range(46)] + [("any", "wide-gpu"), ("any", "wide-gpu")]
+        fam = [cyc[i % len(cyc)] for i in range(40)] + [("any", "wide-gpu"), ("any", "wide-gpu")] + [("any", "many-pos"), ("any", "nd-replicated")] * 3
     out = []
     for kind, theme in fam:
         s = rng.randrange(1 << 30)
